@@ -46,6 +46,18 @@ func gpts(ps []fpt) []geometry.Point {
 	return out
 }
 
+// scribbled runs a constructor on freshly made slices and overwrites them afterwards: an object must not go on
+// reading the memory its constructor was handed (a caller may reuse its buffer for the next shape)
+func scribbled[T any](build func() T, slices ...[]geometry.Point) T {
+	o := build()
+	for _, sl := range slices {
+		for i := range sl {
+			sl[i] = geometry.Point{X: -77.25 - float64(i), Y: 66.5 + float64(i)}
+		}
+	}
+	return o
+}
+
 func (s *objSpec) poly() *geometry.Poly {
 	if s.NilPoly {
 		return nil
@@ -58,7 +70,7 @@ func (s *objSpec) poly() *geometry.Poly {
 			holes = append(holes, gpts(h))
 		}
 	}
-	return geometry.NewPoly(ext, holes, nil)
+	return scribbled(func() *geometry.Poly { return geometry.NewPoly(ext, holes, nil) }, append([][]geometry.Point{ext}, holes...)...)
 }
 
 func (s *objSpec) build() geojson.Object {
@@ -74,7 +86,8 @@ func (s *objSpec) build() geojson.Object {
 	case "SimplePoint":
 		return geojson.NewSimplePoint(p0)
 	case "LineString":
-		return geojson.NewLineString(geometry.NewLine(gpts(s.Pts), nil))
+		pts := gpts(s.Pts)
+		return scribbled(func() geojson.Object { return geojson.NewLineString(geometry.NewLine(pts, nil)) }, pts)
 	case "Polygon":
 		return geojson.NewPolygon(s.poly())
 	case "Rect":
@@ -86,11 +99,13 @@ func (s *objSpec) build() geojson.Object {
 	case "Circle":
 		return geojson.NewCircle(p0, float64(s.Radius), s.Steps)
 	case "MultiPoint":
-		return geojson.NewMultiPoint(gpts(s.Pts))
+		pts := gpts(s.Pts)
+		return scribbled(func() geojson.Object { return geojson.NewMultiPoint(pts) }, pts)
 	case "MultiLineString":
 		var lines []*geometry.Line
 		for _, r := range s.Rings {
-			lines = append(lines, geometry.NewLine(gpts(r), nil))
+			pts := gpts(r)
+			lines = append(lines, scribbled(func() *geometry.Line { return geometry.NewLine(pts, nil) }, pts))
 		}
 		return geojson.NewMultiLineString(lines)
 	case "MultiPolygon":
